@@ -5,6 +5,7 @@
 //! and (where the carrier type-checks for deserialization) `T::deserialize` gives back the same Rust value.
 //! `carrierset` is the same for hash-based carriers (iteration order is arbitrary): only `ok <cell length>`.
 use super::gen_cases::{gen_native, gen_ty, Pos};
+use super::toval::ToVal;
 use super::*;
 use crate::rng::Rng;
 use crate::Tier;
@@ -393,25 +394,35 @@ fn line_named(res: &Result<Vec<u8>, String>, len_only: bool, pair: bool) -> Stri
 /// serialize + typed round trip
 fn run_full<T>(ty: &Ty, val: &Val, ctx: &mut Ctx, len_only: bool) -> String
 where
-    T: Carrier + SerializeValue + for<'f, 'm> DeserializeValue<'f, 'm>,
+    T: Carrier + ToVal + SerializeValue + for<'f, 'm> DeserializeValue<'f, 'm>,
 {
     let Some(x) = T::from_val(val) else { return "bad-case".to_owned() };
     let ct = to_column_type(ty);
     let res = serialize_any(&x, &ct, ctx);
     let dom = if T::accepts(ty) { classify(ty, val, true) } else { Dom::Out };
     check_bytes_ord(ty, val, dom, &res, ctx, !len_only);
+    let mut decoded = String::new();
     if let Ok(cell) = &res {
         let body = split_cell(cell, ctx);
+        let td = typed_decode::<T>(&ct, body.as_deref());
         if dom != Dom::Out {
-            match typed_decode::<T>(&ct, body.as_deref()) {
+            match &td {
                 None => {}
                 Some(Ok(y)) if y.same(&x) => {}
                 Some(Ok(_)) => ctx.fail(format!("{}roundtrip: the carrier decodes to a different Rust value", tag(dom))),
                 Some(Err(k)) => ctx.fail(format!("{}roundtrip: the carrier fails to decode its own encoding: {}", tag(dom), k)),
             }
         }
+        // what the typed `DeserializeValue` impl makes of the carrier's own bytes (hash-ordered carriers: not printed)
+        if !len_only {
+            decoded = match &td {
+                None => " => no-typecheck".to_owned(),
+                Some(Ok(y)) => format!(" => {}", val_str(&y.to_val())),
+                Some(Err(k)) => format!(" => err {}", k),
+            };
+        }
     }
-    line_named(&res, len_only, matches!(ty, Ty::Map(..)))
+    format!("{}{}", line_named(&res, len_only, matches!(ty, Ty::Map(..))), decoded)
 }
 
 /// serialization only (borrowed carriers, `MaybeUnset`)
@@ -438,16 +449,16 @@ fn has_vector(t: &Ty) -> bool {
 /// decodes to the same value (`deser ∘ ser ∘ deser = deser`).
 fn run_tdec_full<T>(name: &str, ty: &Ty, body: Option<Vec<u8>>, ctx: &mut Ctx) -> String
 where
-    T: Carrier + SerializeValue + for<'f, 'm> DeserializeValue<'f, 'm>,
+    T: Carrier + ToVal + SerializeValue + for<'f, 'm> DeserializeValue<'f, 'm>,
 {
     let ct = to_column_type(ty);
     match typed_decode::<T>(&ct, body.as_deref()) {
-        None => "type-check-failed".to_owned(),
+        None => "no-typecheck".to_owned(),
         Some(Err(k)) => format!("err {}", k),
         Some(Ok(x)) => {
             let mut buf = Vec::new();
             match x.serialize(&ct, CellWriter::new(&mut buf)) {
-                Err(e) => format!("ok reser-err {}", ser_kind(&e)),
+                Err(_) => val_str(&x.to_val()),
                 Ok(_) => {
                     let b2 = split_cell(&buf, ctx);
                     // a decoded `None` / `Empty` element of a vector re-serializes into the known shapes C01-F2 / C01-F9
@@ -457,7 +468,7 @@ where
                         _ if known_shape => {}
                         _ => ctx.fail("typed decode: deser(ser(deser b)) differs from deser b".to_owned()),
                     }
-                    "ok".to_owned()
+                    val_str(&x.to_val())
                 }
             }
         }
@@ -525,6 +536,9 @@ carriers!(
         "hmap_i32_opt_string" => HashMap<i32, Option<String>>,
     ]
 );
+
+/// carriers of external crates: their range limits are not modelled (malformed input is oracle-only for them)
+const EXTERNAL: &[&str] = &["chrono", "timedate", "timeoffset", "timetime", "bigint", "bigdecimal", "secret"];
 
 const SER_ONLY: &[&str] = &["strref", "bytesref", "cowstr", "varintborrowed", "decimalborrowed", "munset_i32", "vec_munset_i32", "tup2_munset_string_opt_i64", "bmap_i32_munset_string", "slice_i32", "slice_opt_string", "slice_vec_i32", "bytesarr4", "bytesarr16", "dynser_i32", "dynser_vec_string"];
 
@@ -636,7 +650,7 @@ pub fn run_carrier(name: &str, ty: &Ty, val: &Val, ctx: &mut Ctx) -> String {
 }
 
 fn kind_of(name: &str) -> &'static str {
-    if HASHED.contains(&name) { "carrierset" } else { "carrier" }
+    if HASHED.contains(&name) { "carrierset" } else if SER_ONLY.contains(&name) { "carrierser" } else { "carrier" }
 }
 
 pub fn generate(rng: &mut Rng, tier: Tier, emit: &mut dyn FnMut(String)) {
@@ -671,6 +685,9 @@ pub fn generate(rng: &mut Rng, tier: Tier, emit: &mut dyn FnMut(String)) {
     // malformed / mutated cell bodies through the typed decoders (model-independent: no panic, idempotence)
     for _ in 0..per * 12 {
         let name = *rng.pick(FULL);
+        if name.contains("set") || name.contains("map") || EXTERNAL.iter().any(|e| name.contains(e)) {
+            continue;
+        }
         let Some((t, v)) = gen_registered(name, rng) else { continue };
         let mut b = spec_body(&t, &v).unwrap_or_default();
         match rng.below(6) {
